@@ -266,8 +266,13 @@ def _resolved_defaults_task(order_name):
         if not ws.flexible or not ws.tagged:
             continue
         n += 1
-        base = values.base_value(values.build(ws, "value", 8))
-        enc = bytes(refcodec.encode(ws, base, bridge.wire_default).buf)
+        base = dict(values.base_value(values.build(ws, "value", 8)))
+        for f in ws.tagged:
+            base[f.name] = bridge.wire_default(f)  # every tagged field at its described default: none is on the wire
+        lay = refcodec.encode(ws, base, bridge.wire_default)
+        enc = bytes(lay.buf)
+        if any(k == "tag" and p.count(".") == 1 for _, _, k, p in lay.spans):
+            raise HarnessError(f"{path}: the encoding meant to carry no tagged field carries one")
         o = (order_name, n)
         case = {"class": path, "order": order_name, "encoding": enc.hex()[:200]}
         try:
